@@ -82,7 +82,7 @@ def run(ctx, R, tier):
                         atom.comparators[0].value is None
                     if not ok:
                         bad.append(node.ast)
-        R.check(not bad, "C09-R1", "_getInstance|presence-test:%s" % table, "the value looked up in %s is tested with `is None` only" % table,
+        R.check(not bad, "C09-R1", "_getInstance|presence-test:%s#%d" % (table, reads.index((st, var, table))), "the value looked up in %s is tested with `is None` only" % table,
                 f.loc(bad[0]) if bad else f.loc(st),
                 "`%s` decides presence by truthiness/equality of a user object: a falsy instance (empty container, __bool__ False) is re-created on every call"
                 % (unparse(bad[0].test) if bad else ""))
@@ -233,5 +233,5 @@ def run(ctx, R, tier):
     R.check(tested == accepted == {"single", "session", "percall"}, "C09-R6", "modes|agree", "tested modes = accepted modes = {single, session, percall}", f.loc(),
             "_getInstance tests %s, behavior accepts %s" % (sorted(tested), sorted(accepted)))
     # else branch raises: function exit (fall-through) must not be reachable without return/raise
-    ok = not any(e.kind != "exc" for e in cfg.exit.pred if e.src.kind != "stmt" or not isinstance(e.src.ast, ast.Return))
+    ok = not any(e.kind != "exc" for e in cfg.exit.pred if e.src.id in cfg.live() and (e.src.kind != "stmt" or not isinstance(e.src.ast, ast.Return)))
     R.check(ok, "C09-R6", "modes|unknown-raises", "an unknown instance mode raises", f.loc(), "_getInstance can fall through and return None for an unknown mode")
